@@ -1301,7 +1301,7 @@ def c12(ctx):
                     'done, before bestmove, after bestmove} (d<=%d, k<%d) x go form, then isready and another go; every command has a liveness deadline; plus commands with no search '
                     'alive; non-trivial = distinct (phase, command word, go form)' % (maxd, maxk),
             'schedules': len(rows), 'race_detector_reports': races, 'traces_validated_against_impl': len(rows),
-            'states': None, 'samples': [sched_desc(r) for r in rows[:2]], 'partial': ['Go memory model not modelled']}
+            'samples': [sched_desc(r) for r in rows[:2]], 'partial': ['Go memory model not modelled']}
 
 
 # =====================================================================================================
